@@ -61,7 +61,17 @@ fn localise(e: &Expression, seed_rng: &Rng) -> Vec<String> {
 pub fn check_tree(e: &Expression, case: &str, rng: &mut Rng, rep: &mut Report, extra: usize) {
     rep.evaluations += 1;
     let r0 = rng.clone();
-    let res = validate(e, &opts_default(), &mut |now| directed_records(e, now, rng, extra));
+    // the options are an input of compile() too
+    let mut opts = opts_default();
+    match rng.below(4) {
+        0 => opts.threads = Some(rng.below(64) as u32),
+        1 => {
+            opts.threads = Some(1);
+            opts.depth = true;
+        }
+        _ => {}
+    }
+    let res = validate(e, &opts, &mut |now| directed_records(e, now, rng, extra));
     match res {
         Tv::Agree { records, compiled, run, truths } => {
             rep.add("disagreements_checked", records as u64);
